@@ -61,6 +61,36 @@ func (f format) method(m string) string { return "(" + f.typ + ")." + m }
 
 // skeleton builds the graph of a function with all its direct in-module
 // callees left opaque.
+// signSkeleton: the skeleton of a format's Sign. When the COSE Sign builds its message in a
+// single-purpose helper (everything up to the encoding moved out of Sign), that helper is kept
+// inlined: the rules speak about the steps, not about which of the two functions holds them.
+func (c *Check) signSkeleton(f format) *PG {
+	sign := f.method("Sign")
+	if f.name != "COSE" {
+		return c.skeleton(sign)
+	}
+	const anchor = "github.com/veraison/go-cose.NewSign1Message"
+	holder := map[*FuncSrc]bool{}
+	for _, s := range c.P.callSites(func(n string) bool { return n == anchor }) {
+		holder[s.Fn] = true
+	}
+	fs := c.P.fn(sign)
+	if fs == nil || holder[fs] {
+		return c.skeleton(sign)
+	}
+	var keep []string
+	for h := range holder {
+		// a direct callee of Sign that holds the anchor
+		for _, t := range c.callTree([]string{sign}) {
+			if t == h {
+				keep = append(keep, c.P.abbrev(h.Obj.FullName()))
+			}
+		}
+	}
+	sort.Strings(keep)
+	return c.skeleton(sign, keep...)
+}
+
 func (c *Check) skeleton(name string, keep ...string) *PG {
 	fs := c.P.fn(name)
 	if fs == nil {
@@ -112,7 +142,7 @@ func checkC20(c *Check) {
 	}
 	// (1) inner Sign commits last
 	for _, f := range fmts {
-		pg := c.skeleton(f.method("Sign"))
+		pg := c.signSkeleton(f)
 		if pg == nil {
 			continue
 		}
